@@ -30,6 +30,7 @@ def boot (clock=None):
   import pox.lib.recoco.recoco as recoco
   if not _booted:
     assert 'unittest' not in sys.modules, "unittest imported before pox.core: core would start a thread"
+    recoco.Scheduler._orig_runThreaded = recoco.Scheduler.runThreaded
     recoco.Scheduler.runThreaded = lambda self, daemon=False: None
     import pox.core
     if pox.core.core is None:
